@@ -795,8 +795,8 @@ Proof.
   destruct (stream_items c m) as [m1 r]. cbn [fst snd] in *.
   pose proof (minv_nodup m H) as Hnd. rewrite S2 in Hnd. unfold qids in Hnd. rewrite map_app in Hnd.
   destruct S7 as [[-> Hst]|(s' & Hst & Hi1 & Hi2)].
-  - cbn. rewrite app_nil_r, Hst. now split.
-  - rewrite Hst. split.
+  - cbn [qids map]. rewrite app_nil_r. unfold ginv. rewrite Hst. now split.
+  - unfold ginv. rewrite Hst. split.
     + apply nodup_app; [assumption|now apply nodup_app_l in Hnd|].
       intros x Hx Hr. destruct (mp_streamed m) as [s|] eqn:Es; [|subst g; contradiction].
       apply (iv_str m H s x Es (G2 x Hx)). rewrite S2. unfold qids. rewrite map_app. apply in_or_app. now left.
@@ -839,6 +839,79 @@ Qed.
 Lemma add1_refuses_streamed front m x s : mp_streamed m = Some s -> In (it_id x) s -> add1 front m x = m.
 Proof.
   intros Hs Hin. unfold add1. rewrite Hs. now rewrite (proj2 (mem_id_in (it_id x) s) Hin).
+Qed.
+
+(* ---------- the statements used by Props/C23.v ---------- *)
+Lemma c23_invariant maxsz maxsp ops :
+  Forall wf_op ops ->
+  let m := fst (run (mp_new maxsz maxsp) ops) in
+  NoDup (qids (mp_queue m)) /\
+  length (mp_queue m) <= maxsz /\
+  (forall s, count_sp (mp_queue m) s <= maxsp) /\
+  mp_pending m = sum_size (mp_queue m) /\
+  eh_len (mp_eh m) = length (mp_queue m) /\
+  (forall id, eh_has (mp_eh m) id = true <-> In id (qids (mp_queue m))).
+Proof.
+  intros Ho m. destruct (run_inv ops _ (rinv_new maxsz maxsp) Ho) as [H _]. fold m in H.
+  destruct (run_limits ops (mp_new maxsz maxsp)) as [L1 L2]. fold m in L1, L2. cbn in L1, L2.
+  split; [now apply minv_nodup|]. split; [rewrite <- L1; apply (iv_max m H)|].
+  split; [intros s; rewrite <- L2; apply (iv_sp m H)|]. split; [apply (iv_size m H)|].
+  split; [now apply minv_len|]. intros id. now apply minv_has.
+Qed.
+
+Lemma c23_set_min maxsz maxsp m t : reachable maxsz maxsp m ->
+  mp_queue (fst (set_min_ts m t)) = filter (fun y => (t <=? it_exp y)%Z) (mp_queue m) /\
+  Permutation (snd (set_min_ts m t)) (filter (fun y => (it_exp y <? t)%Z) (mp_queue m)).
+Proof.
+  intros Hr. destruct (reachable_inv _ _ m Hr) as [H _].
+  destruct (set_min_ts_inv m t H) as (_ & S2 & S3 & _). auto.
+Qed.
+
+Lemma c23_order maxsz maxsp m : reachable maxsz maxsp m ->
+  (* PopNext / PeekNext: the front of the queue *)
+  (snd (pop_next m) = hd_error (mp_queue m) /\ mp_queue (fst (pop_next m)) = tl (mp_queue m) /\
+   peek_next m = hd_error (mp_queue m)) /\
+  (* Add: accepted items go to the back in argument order *)
+  (forall xs, exists acc, sub acc xs /\ mp_queue (add false m xs) = mp_queue m ++ acc) /\
+  (* FinishStreaming / Top restore: accepted items go to the front *)
+  (forall xs, exists acc, sub acc xs /\ mp_queue (add true m xs) = rev acc ++ mp_queue m) /\
+  (* Stream / PrepareStream hand out a prefix of the queue *)
+  (forall c, mp_queue m = snd (stream_items c m) ++ mp_queue (fst (stream_items c m)) /\
+             length (snd (stream_items c m)) <= c /\
+             (length (snd (stream_items c m)) = c \/ mp_queue (fst (stream_items c m)) = [])) /\
+  (* Top visits a prefix and restores a subsequence of it in front of the rest *)
+  (forall script, exists k acc, snd (top m script) = firstn k (mp_queue m) /\ sub acc (snd (top m script)) /\
+             mp_queue (fst (top m script)) = rev acc ++ skipn k (mp_queue m)).
+Proof.
+  intros Hr. destruct (reachable_inv _ _ m Hr) as [H _].
+  split; [|split; [|split; [|split]]].
+  - destruct (pop_next_inv m H) as (_ & P2 & P3 & _). auto.
+  - intros xs. destruct (add_order false xs m) as (acc & A1 & A2 & _). exists acc. auto.
+  - intros xs. destruct (add_order true xs m) as (acc & A1 & A2 & _). exists acc. auto.
+  - intros c. destruct (stream_items_inv c m H) as (_ & S2 & S3 & S4 & _). auto.
+  - intros script. destruct (top_inv m script H) as (_ & _ & _ & _ & T). exact T.
+Qed.
+
+Lemma c23_remove maxsz maxsp m xs : reachable maxsz maxsp m -> Forall wf_item xs ->
+  mp_queue (remove m xs) = filter (fun y => negb (mem_id (it_id y) (qids xs))) (mp_queue m).
+Proof. intros Hr Hx. destruct (reachable_inv _ _ m Hr) as [H _]. apply (remove_inv xs m H Hx). Qed.
+
+Lemma c23_stream maxsz maxsp ops : Forall wf_op ops ->
+  let m := fst (run (mp_new maxsz maxsp) ops) in
+  let g := ghost_run [] (mp_new maxsz maxsp) ops in
+  NoDup g /\
+  (forall id, In id g -> ~ In id (qids (mp_queue m))) /\
+  (forall front x, In (it_id x) g -> add1 front m x = m).
+Proof.
+  intros Ho m g.
+  assert (G0 : ginv [] (mp_new maxsz maxsp)) by (split; [constructor|reflexivity]).
+  destruct (ghost_run_inv ops [] _ (rinv_new maxsz maxsp) Ho G0) as [G1 G2]. fold m g in G1, G2.
+  destruct (run_inv ops _ (rinv_new maxsz maxsp) Ho) as [H _]. fold m in H.
+  split; [exact G1|]. destruct (mp_streamed m) as [s|] eqn:Es.
+  - split.
+    + intros id Hid. apply (iv_str m H s id Es). now apply G2.
+    + intros front x Hx. apply (add1_refuses_streamed front m x s Es). now apply G2.
+  - rewrite G2. split; intros; contradiction.
 Qed.
 
 End Inv.
